@@ -177,7 +177,205 @@ def s_from_ptr_len(ex, st, fr, ins, name, argv):
         if normal is not None:
             ex.jump(st, f2, normal)
         return [st, s2]
-    _set(st, argv[0], norm([nbytes(ex, st, p, n)]))
+    try:
+        _set(st, argv[0], norm([nbytes(ex, st, p, n)]))
+    except Unsupported:
+        if not (tm.is_ic(n) and isinstance(p, Ptr) and p.region is not None):
+            raise
+        # concrete length, symbolic bytes: the characters live in a fresh region (NUL-terminated, as libstdc++ keeps them)
+        L = n.args[0]
+        if p.off + L > st.regions[p.region].size:
+            st.ub.append(('load out of bounds', 'std::string(ptr, %d) reads beyond %s' % (L, st.regions[p.region].name)))
+        bs = [ex.load(st, Ptr(p.region, p.off + i), ('int', 8)) for i in range(L)]
+        _set(st, argv[0], (_mem_piece(ex, st, bs),))
+
+
+def _mem_piece(ex, st, byte_terms):
+    rid = st.new_region(len(byte_terms) + 1, 'heap', 'std-string-data')
+    reg = st.wreg(rid)
+    for i, b in enumerate(byte_terms):
+        reg.cells[i] = (1, 'i8', b)
+    reg.cells[len(byte_terms)] = (1, 'i8', ic('i8', 0))
+    return ('mem', rid, len(byte_terms))
+
+
+def _materialise(ex, st, p):
+    """(region, length) of the characters of the std::string at p; only for strings whose content is concrete bytes or
+    one block of symbolic bytes"""
+    v = _get(st, p)
+    if len(v) == 1 and isinstance(v[0], tuple) and v[0][0] == 'mem':
+        return v[0][1], v[0][2]
+    if all(isinstance(x, bytes) for x in v):
+        b = b''.join(v)
+        piece = _mem_piece(ex, st, [ic('i8', c) for c in b])
+        _set(st, p, (piece,))
+        return piece[1], piece[2]
+    raise Unsupported('character access to a std::string with formatted parts')
+
+
+def _bytes_of(ex, st, p):
+    rid, L = _materialise(ex, st, p)
+    return rid, L, [ex.load(st, Ptr(rid, i), ('int', 8)) for i in range(L)]
+
+
+def _ret(ex, st, ins, v):
+    res, normal = ins.res, (ins.a[3] if len(ins.a) > 3 else None)
+    if st.status is not None:
+        return
+    f2 = st.frames[-1]
+    if res is not None:
+        f2.env[res] = v
+    if normal is not None:
+        ex.jump(st, f2, normal)
+
+
+def _index(n, what):
+    if not tm.is_ic(n):
+        raise Unsupported('%s with a symbolic index' % what)
+    return n.args[0]
+
+
+def _index_cases(st, n, L):
+    """(state, concrete index or None for 'beyond L') cases of an index term: concrete -> one case; symbolic -> one
+    successor state per value 0..L and one for every larger value (infeasible ones carry a contradictory path condition)"""
+    if tm.is_ic(n):
+        return [(st, n.args[0] if n.args[0] <= L else None)]
+    out = []
+    for i in range(L + 1):
+        s2 = st.clone()
+        if s2.assume(mk('icmp', 'i1', 'eq', n, ic(n.ty, i))) is not False:
+            out.append((s2, i))
+    if st.assume(mk('icmp', 'i1', 'ugt', n, ic(n.ty, L))) is not False:
+        out.append((st, None))
+    return out
+
+
+def s_at(ex, st, fr, ins, name, argv):
+    rid, L = _materialise(ex, st, argv[0])
+    out = []
+    for s2, i in _index_cases(st, argv[1], L):
+        if i is None or i >= L:
+            ex.throw(s2, 'std::out_of_range', ins, 'basic_string::at: __n >= this->size() (which is %d)' % L)
+        else:
+            _ret(ex, s2, ins, Ptr(rid, i))
+        out.append(s2)
+    return out
+
+
+def s_index(ex, st, fr, ins, name, argv):
+    rid, L = _materialise(ex, st, argv[0])
+    out = []
+    for s2, i in _index_cases(st, argv[1], L):
+        if i is None:
+            s2.ub.append(('std::string::operator[] out of range', 'index > size %d' % L))
+            s2.status = 'ub-string-index'
+        else:
+            _ret(ex, s2, ins, Ptr(rid, i))
+        out.append(s2)
+    return out
+
+
+def s_front(ex, st, fr, ins, name, argv):
+    rid, L = _materialise(ex, st, argv[0])
+    if L == 0:
+        st.ub.append(('std::string::front()/back() on an empty string', ''))
+        st.status = 'ub-string-front'
+        return None
+    return Ptr(rid, 0 if 'front' in name_of(name) else L - 1)
+
+
+def name_of(name):
+    return name if isinstance(name, str) else str(name)
+
+
+def s_data(ex, st, fr, ins, name, argv):
+    rid, L = _materialise(ex, st, argv[0])
+    return Ptr(rid, 0)
+
+
+def s_end(ex, st, fr, ins, name, argv):
+    rid, L = _materialise(ex, st, argv[0])
+    return Ptr(rid, L)
+
+
+def _in_set(b, chars):
+    c = None
+    for ch in chars:
+        e = mk('icmp', 'i1', 'eq', b, ic('i8', ch))
+        c = e if c is None else mk('or', 'i1', c, e)
+    return c if c is not None else ic('i1', 0)
+
+
+def _find_fork(ex, st, ins, L, start, conds_hit, backwards=False):
+    """successor states of a character search: result = the first index i (from `start`) whose condition holds, after all
+    earlier ones failed, or npos; conds_hit[i] is an i1 term"""
+    out = []
+    cur = st
+    order = range(start, -1, -1) if backwards else range(start, L)
+    for i in order:
+        c = conds_hit[i]
+        if tm.is_ic(c):
+            if c.args[0]:
+                _ret(ex, cur, ins, ic('i64', i))
+                out.append(cur)
+                return out
+            continue
+        s2 = cur.clone()
+        if s2.assume(c) is not False:
+            _ret(ex, s2, ins, ic('i64', i))
+            out.append(s2)
+        if cur.assume(tm.negate(c)) is False:
+            return out
+    _ret(ex, cur, ins, ic('i64', (1 << 64) - 1))
+    out.append(cur)
+    return out
+
+
+def s_find_set(kind):
+    """find_first_of / find_first_not_of / find_last_of / find_last_not_of (const char* set, size_t pos [, size_t n])"""
+    def f(ex, st, fr, ins, name, argv):
+        rid, L, bs = _bytes_of(ex, st, argv[0])
+        if len(argv) >= 4:
+            chars = nbytes(ex, st, argv[1], argv[3])
+        else:
+            chars = cstr(ex, st, argv[1])
+        pos = _index(argv[2], 'std::string::find_*') if len(argv) > 2 else 0
+        neg = 'not' in kind
+        conds = [(tm.negate(_in_set(b, chars)) if neg else _in_set(b, chars)) for b in bs]
+        if 'last' in kind:
+            start = min(pos, L - 1) if L else -1
+            return _find_fork(ex, st, ins, L, start, conds, backwards=True)
+        return _find_fork(ex, st, ins, L, min(pos, L), conds)
+    return f
+
+
+def s_find_char(ex, st, fr, ins, name, argv):
+    rid, L, bs = _bytes_of(ex, st, argv[0])
+    ch = argv[1]
+    pos = _index(argv[2], 'std::string::find') if len(argv) > 2 else 0
+    conds = [mk('icmp', 'i1', 'eq', b, ch if tm.ibits(ch.ty) == 8 else mk('trunc', 'i8', ch)) for b in bs]
+    return _find_fork(ex, st, ins, L, min(pos, L), conds)
+
+
+def s_substr(ex, st, fr, ins, name, argv):
+    # sret form: argv[0] = result, argv[1] = this, argv[2] = pos, argv[3] = n
+    rid, L, bs = _bytes_of(ex, st, argv[1])
+    pos = _index(argv[2], 'std::string::substr')
+    n = _index(argv[3], 'std::string::substr')
+    if pos > L:
+        ex.throw(st, 'std::out_of_range', ins, 'basic_string::substr: __pos (which is %d) > this->size() (which is %d)' % (pos, L))
+        return [st]
+    _set(st, argv[0], (_mem_piece(ex, st, bs[pos:pos + min(n, L - pos)]),))
+    return None
+
+
+def ctype_fn(chars):
+    def f(ex, st, fr, ins, name, argv):
+        c = argv[0]
+        b = mk('trunc', 'i8', c) if tm.ibits(c.ty) != 8 else c
+        inr = mk('icmp', 'i1', 'ult', c, ic(c.ty, 128))
+        return mk('zext', ex.tt(ins.a[0]), mk('and', 'i1', inr, _in_set(b, chars)))
+    return f
 
 
 _snp = [0]
@@ -389,14 +587,21 @@ def case_fn(kind):
     return f
 
 
+def _plen(x):
+    return len(x) if isinstance(x, bytes) else (x[2] if isinstance(x, tuple) and x[0] == 'mem' else None)
+
+
 def s_empty(ex, st, fr, ins, name, argv):
-    return ic('i1', 0 if _get(st, argv[0]) else 1)
+    v = _get(st, argv[0])
+    if all(_plen(x) is not None for x in v):
+        return ic('i1', 0 if sum(_plen(x) for x in v) else 1)
+    return ic('i1', 0 if v else 1)
 
 
 def s_size(ex, st, fr, ins, name, argv):
     v = _get(st, argv[0])
-    if all(isinstance(x, bytes) for x in v):
-        return ic('i64', sum(len(x) for x in v))
+    if all(_plen(x) is not None for x in v):
+        return ic('i64', sum(_plen(x) for x in v))
     raise Unsupported('size() of a string with symbolic parts')
 
 
@@ -612,6 +817,17 @@ TABLE = [
     (r'^(?:%s )?PhQ::Lowercase(?:\[abi:cxx11\])?\(%s\)$' % (E(STR), E(SV)), case_fn('Lowercase')),
     (r'^(?:%s )?PhQ::Uppercase(?:\[abi:cxx11\])?\(%s\)$' % (E(STR), E(SV)), case_fn('Uppercase')),
     (r'^%s::(size|length)\(\) const$' % E(STR), s_size),
+    (r'^%s::at\(unsigned long\)( const)?$' % E(STR), s_at),
+    (r'^%s::operator\[\]\(unsigned long\)( const)?$' % E(STR), s_index),
+    (r'^%s::(front|back)\(\)( const)?$' % E(STR), s_front),
+    (r'^%s::(data|c_str|begin|cbegin)\(\)( const)?$' % E(STR), s_data),
+    (r'^%s::(end|cend)\(\)( const)?$' % E(STR), s_end),
+    (r'^%s::find_first_not_of\(char const\*, unsigned long(, unsigned long)?\) const$' % E(STR), s_find_set('first_not')),
+    (r'^%s::find_first_of\(char const\*, unsigned long(, unsigned long)?\) const$' % E(STR), s_find_set('first')),
+    (r'^%s::find_last_not_of\(char const\*, unsigned long(, unsigned long)?\) const$' % E(STR), s_find_set('last_not')),
+    (r'^%s::find_last_of\(char const\*, unsigned long(, unsigned long)?\) const$' % E(STR), s_find_set('last')),
+    (r'^%s::find\(char, unsigned long\) const$' % E(STR), s_find_char),
+    (r'^%s::substr\(unsigned long, unsigned long\) const$' % E(STR), s_substr),
     (r'^%s std::operator\+<.*>\(char const\*, %s&&\)$' % (E(STR), E(STR)), _concat('c', 's')),
     (r'^%s std::operator\+<.*>\(char const\*, %s const&\)$' % (E(STR), E(STR)), _concat('c', 's')),
     (r'^%s std::operator\+<.*>\(%s&&, char const\*\)$' % (E(STR), E(STR)), _concat('s', 'c')),
@@ -659,6 +875,8 @@ def install(summ, mod, summarise_print=True):
     summ['strlen'] = strlen_
     summ['phqv_emit'] = emit
     summ['snprintf'] = snprintf_
+    summ['isspace'] = ctype_fn(b' \t\n\v\f\r')
+    summ['isdigit'] = ctype_fn(b'0123456789')
     return summ
 
 
